@@ -255,6 +255,12 @@ impl TupleSlice {
   }
 }
 
+/// Verification hook: the private index normalisation of tuple natives
+#[cfg(feature = "verif")]
+pub fn verif_tuple_determine_index(tuple: &[Value], index: f64) -> Result<usize, String> {
+  determine_index(tuple, index)
+}
+
 fn determine_index(tuple: &[Value], index: f64) -> Result<usize, String> {
   if index.fract() != 0.0 {
     return Err("Index must be an integer.".to_string());
